@@ -3539,7 +3539,18 @@ impl<'a, R: FileManager> FrontendCtx<'a, R> {
                 let mut prefix_items = vec![];
                 let mut items = None;
                 for it in elem_types {
-                    if let TsType::TsRestType(TsRestType { type_ann, .. }) = &*it.ty {
+                    // `...T[]`, or with an element name `...rest: T[]` (then the rest marker is on the label)
+                    let rest_ann = match (&*it.ty, &it.label) {
+                        (TsType::TsRestType(TsRestType { type_ann, .. }), _) => Some(type_ann),
+                        (_, Some(swc_ecma_ast::Pat::Rest(_))) => Some(&it.ty),
+                        _ => None,
+                    };
+                    if rest_ann.is_none() && items.is_some() {
+                        // [string, ...number[], boolean]: elements after the rest element are not supported; compiling them
+                        // as if they came before it would validate another type
+                        return self.error(&anchor, DiagnosticInfoMessage::TupleRestMustBeLast);
+                    }
+                    if let Some(type_ann) = rest_ann {
                         if items.is_some() {
                             return self.error(
                                 &anchor,
